@@ -23,6 +23,8 @@ DIMS = {
     "many": [False, True],
     # a line gap in the input font (hhea / OS/2): the em box the pictures are scaled to is ascender - descender, not the line height
     "linegap": [0, 300],
+    # a third-party font whose hhea ascent / descent (and win metrics) are not its typo metrics, as is usual outside nanoemoji's own output
+    "hhea": ["typo", "taller"],
 }
 K = {"quick": 1, "thorough": 2}
 FG = (0.2, 0.9, 0.4, 1.0)
@@ -38,6 +40,8 @@ def relevant(dev):
     if ("many" in dev or "linegap" in dev) and third:
         return False
     if "empty_middle" in dev and third:
+        return False
+    if "hhea" in dev and not third:
         return False
     return True
 
@@ -74,9 +78,10 @@ def third_party(a):
     adv["B"] = 700
     adv["mark"] = 0 if a["zero_width"] else 300
     fb.setupHorizontalMetrics({g: (adv[g], (fb.font["glyf"][g].xMin if fb.font["glyf"][g].numberOfContours else 0)) for g in order})
-    fb.setupHorizontalHeader(ascent=800, descent=-200)
+    tall = a.get("hhea", "typo") == "taller"
+    fb.setupHorizontalHeader(ascent=970 if tall else 800, descent=-310 if tall else -200)
     fb.setupNameTable({"familyName": "T", "styleName": "R"})
-    fb.setupOS2(sTypoAscender=800, sTypoDescender=-200, usWinAscent=800, usWinDescent=200)
+    fb.setupOS2(sTypoAscender=800, sTypoDescender=-200, usWinAscent=970 if tall else 800, usWinDescent=310 if tall else 200)
     fb.setupPost(keepGlyphNames=a["names"])
     solid = lambda i, al=1.0: {"Format": PF.PaintSolid, "PaletteIndex": i, "Alpha": al}
     lin = {"Format": PF.PaintLinearGradient, "ColorLine": {"ColorStop": [(0, 0), (1, 1)], "Extend": "reflect"}, "x0": 150, "y0": 150, "x1": 350, "y1": 300, "x2": 100, "y2": 400}
@@ -368,7 +373,7 @@ def run(report, tier, only=None):
     report.extra["deviation_bound"] = k
     report.rule = (
         "E1 over input kind (nanoemoji COLRv1/COLRv0/picosvg/untouchedsvg, third-party COLRv1/COLRv0 built with fontTools) x --bitmaps x "
-        "--colr_version x --keep_glyph_names x space glyph x kerning+mark lookups x 1/2 palettes x glyph names x zero-width colour glyph x seven colour glyphs with a shared shape (an OT-SVG document for glyph ids 7..8), "
+        "--colr_version x --keep_glyph_names x space glyph x kerning+mark lookups x 1/2 palettes x glyph names x zero-width colour glyph x hhea ascent/descent differing from the typo metrics x seven colour glyphs with a shared shape (an OT-SVG document for glyph ids 7..8), "
         "<= %d deviations, each through the real `maximum_color` command; name-keyed facts of input and output (cmap, advances, outlines, "
         "GSUB/GPOS/GDEF, original COLR), tables added, pictures of all colour tables compared point-wise for every reachable colour glyph "
         "(CBDT through its metrics), O-STRUCT, stripped-names run equal except post; distinct = input kind x tables" % k
